@@ -14,6 +14,7 @@ package base58
 //@   ensures (forall k :: 0 <= k && k < len(b) ==> b58[int(b[k])] != 255) ==> len(result) >= b58.ones(b, 0, len(b)) && (forall k :: 0 <= k && k < b58.ones(b, 0, len(b)) ==> result[k] == 0)
 //@   ensures (forall k :: 0 <= k && k < len(b) ==> b58[int(b[k])] != 255) ==> big.beo(result, b58.ones(b, 0, len(b)), len(result) - b58.ones(b, 0, len(b))) == b58.valfrom(b, 0, len(b))
 //@   ensures (forall k :: 0 <= k && k < len(b) ==> b58[int(b[k])] != 255) && len(result) > b58.ones(b, 0, len(b)) ==> result[b58.ones(b, 0, len(b))] != 0
+//@   ensures-by base58.lemmaDecodeEncode: b58.isenc(b.ref) && b.off == 0 && len(b) == b58.enclen(b.ref) ==> len(result) == b58.srclen(b.ref) && forall k :: 0 <= k && k < len(result) ==> result[k] == b58.srcat(b.ref, k)
 //@   uses beo_ext, beo_is_be
 //@   modifies nothing
 //@   opaque b58.dig
@@ -30,6 +31,8 @@ package base58
 //@   loop 2 decreases len(b) - numZeros
 
 //@ func base58.Encode
+//@   ensures fresh(result) && result.off == 0
+//@   ghostdef b58.isenc(result.ref) && b58.enclen(result.ref) == len(result) && b58.srclen(result.ref) == len(b) && forall k :: 0 <= k && k < len(b) ==> b58.srcat(result.ref, k) == old(b[k])
 //@   ensures len(result) >= b58.lz(b, 0, len(b))
 //@   ensures b58.rest(big.be(b, len(b)), len(result) - b58.lz(b, 0, len(b))) == 0
 //@   ensures len(result) > b58.lz(b, 0, len(b)) ==> b58.rest(big.be(b, len(b)), len(result) - b58.lz(b, 0, len(b)) - 1) > 0
@@ -61,12 +64,15 @@ package base58
 //@   assert after copy#1: forall k :: 0 <= k && k < 4 ==> cksum[k] == h2[k]
 
 //@ func base58.CheckEncode
+//@   ensures fresh(result) && result.off == 0
+//@   ghostdef b58c.isenc(result.ref) && b58c.enclen(result.ref) == len(result) && b58c.ver(result.ref) == version && b58c.paylen(result.ref) == len(input) && forall k :: 0 <= k && k < len(input) ==> b58c.payat(result.ref, k) == old(input[k])
 //@   ensures $calls_Encode == 1 && $calls_checksum == 1 && sameobj(result, $ret_Encode#1) && len(result) == len($ret_Encode#1) && result.off == $ret_Encode#1.off
 //@   modifies nothing
 //@   assert after checksum#1: len($arg0) == 1 + len(input) && $arg0[0] == version && forall k :: 0 <= k && k < len(input) ==> $arg0[1 + k] == input[k]
 //@   assert after Encode#1: len($arg0) == 5 + len(input) && $arg0[0] == version && (forall k :: 0 <= k && k < len(input) ==> $arg0[1 + k] == input[k]) && (forall k :: 0 <= k && k < 4 ==> $arg0[1 + len(input) + k] == cksum[k])
 
 //@ func base58.CheckDecode
+//@   ensures-by base58.lemmaCheckDecodeEncode: b58c.isenc(input.ref) && input.off == 0 && len(input) == b58c.enclen(input.ref) ==> err == nil && version == b58c.ver(input.ref) && len(result) == b58c.paylen(input.ref) && forall k :: 0 <= k && k < len(result) ==> result[k] == b58c.payat(input.ref, k)
 //@   ensures $calls_Decode == 1 && $calls_checksum <= 1
 //@   ensures err == nil ==> freshornil(result)
 //@   ensures len($ret_Decode#1) < 5 ==> err != nil
@@ -98,30 +104,9 @@ package base58
 
 //@ lemmafunc base58.lemmaCheckDecodeEncode
 //@   inlines base58.CheckEncode, base58.CheckDecode
-//@   uses b58_rest_nonneg
 //@   bind after CheckEncode/checksum#1: $c = $arg0
-//@   bind after CheckEncode/checksum#1: $ck = $ret
 //@   bind after CheckEncode/Encode#1: $b = $arg0
-//@   bind after CheckEncode/Encode#1: $s = $ret
-//@   assert after CheckEncode/Encode#1: len($s) == len($ret) && len($b) == len($arg0) && (forall k :: 0 <= k && k < len($b) ==> $b[k] == $arg0[k])
-//@   assert after CheckEncode/Encode#1: lemma b58_lz_props($b, len($b), len($b))
-//@   assert after CheckEncode/Encode#1: lemma b58_dig_chr(b58.rest(big.be($b, len($b)), len($s) - b58.lz($b, 0, len($b)) - 1) % 58)
-//@   assert after CheckEncode/Encode#1: b58.lz($b, 0, len($b)) <= len($b) && 0 <= b58.lz($b, 0, len($b))
-//@   assert after CheckEncode/Encode#1: forall k :: 0 <= k && k < len($s) ==> b58[int($s[k])] != 255
-//@   assert after CheckEncode/Encode#1: forall k :: 0 <= k && k < b58.lz($b, 0, len($b)) ==> $s[k] == 49
-//@   assert after CheckEncode/Encode#1: len($s) > b58.lz($b, 0, len($b)) ==> $s[b58.lz($b, 0, len($b))] != 49
-//@   assert after CheckEncode/Encode#1: lemma b58_ones_count($s, b58.lz($b, 0, len($b)), b58.lz($b, 0, len($b)), len($s))
-//@   assert after CheckEncode/Encode#1: b58.ones($s, 0, len($s)) == b58.lz($b, 0, len($b))
-//@   assert after CheckEncode/Encode#1: lemma be_nonneg($b, len($b))
-//@   assert after CheckEncode/Encode#1: lemma b58_val_ones($s, 0, b58.lz($b, 0, len($b)), len($s))
-//@   assert after CheckEncode/Encode#1: lemma b58_val_suffix($s, b58.lz($b, 0, len($b)), len($s), big.be($b, len($b)), len($s) - b58.lz($b, 0, len($b)))
-//@   assert after CheckEncode/Encode#1: b58.valfrom($s, 0, len($s)) == big.be($b, len($b))
-//@   assert after CheckEncode/Encode#1: lemma be_strip($b, b58.lz($b, 0, len($b)), len($b) - b58.lz($b, 0, len($b)))
-//@   assert after CheckEncode/Encode#1: big.be($b, len($b)) == big.beo($b, b58.lz($b, 0, len($b)), len($b) - b58.lz($b, 0, len($b)))
-//@   assert after CheckDecode/Decode#1: lemma beo_unique($ret, b58.lz($b, 0, len($b)), len($ret) - b58.lz($b, 0, len($b)), $b, b58.lz($b, 0, len($b)), len($b) - b58.lz($b, 0, len($b)))
-//@   assert after CheckDecode/Decode#1: len($ret) == len($b)
-//@   assert after CheckDecode/Decode#1: forall k :: 0 <= k && k < b58.lz($b, 0, len($b)) ==> $ret[k] == $b[k]
-//@   assert after CheckDecode/Decode#1: forall k :: 0 <= k && k < len($b) ==> $ret[k] == $b[k]
+//@   assert after CheckDecode/Decode#1: len($ret) == len($b) && forall k :: 0 <= k && k < len($b) ==> $ret[k] == $b[k]
 //@   assert after CheckDecode/Decode#1: len($b) == len(input) + 5 && len($c) == len(input) + 1 && $b[0] == version && (forall k :: 0 <= k && k < len(input) ==> $b[1 + k] == input[k]) && (forall k :: 0 <= k && k < len($c) ==> $c[k] == $b[k])
 //@   assert after CheckDecode/Decode#1: lemma b58_cks_ext($c, len($c), $b, len($b) - 4)
 //@   assert after CheckDecode/Decode#1: forall k :: 0 <= k && k < 4 ==> $b[len(input) + 1 + k] == b58.cks($b, len(input) + 1, k)
@@ -132,3 +117,4 @@ package base58
 //@   assert after CheckDecode#1: $ret1 == version
 //@   assert after CheckDecode#1: len($ret0) == len(input)
 //@   assert after CheckDecode#1: forall k :: 0 <= k && k < len(input) ==> $ret0[k] == input[k]
+//@   assert after CheckDecode#1: b58c.isenc($arg0.ref) && $arg0.off == 0 && len($arg0) == b58c.enclen($arg0.ref)
